@@ -37,6 +37,16 @@ let pager (z : Model.z) : Model.byte list Model.res =
   if n < 1 || n > Array.length !pages || Hashtbl.mem failing n then Model.Err Model.EIO
   else Model.Ok !pages.(n - 1)
 
+(* Database.openPage memoised: [Model.openp pager U] is a pure function of the
+   page number for a fixed image and fault set; the table is cleared whenever
+   either changes.  (The Go code caches parsed pages the same way.) *)
+let memo : (int, Model.page Model.res) Hashtbl.t = Hashtbl.create 4096
+let openp (z : Model.z) : Model.page Model.res =
+  let n = int_of_z z in
+  match Hashtbl.find_opt memo n with
+  | Some r -> r
+  | None -> let r = Model.openp pager (z_of_int !usize) z in Hashtbl.replace memo n r; r
+
 let starts_with p s = String.length s >= String.length p && String.sub s 0 (String.length p) = p
 
 let () =
@@ -48,7 +58,7 @@ let () =
       else if starts_with "db " line then begin
         let path = String.sub line 3 (String.length line - 3) in
         let s = read_file path in
-        Hashtbl.reset failing;
+        Hashtbl.reset failing; Hashtbl.reset memo;
         let hb = bytes_of_string (String.sub s 0 (min 100 (String.length s))) in
         (match Model.parse_header hb with
          | Model.Err e ->
@@ -63,13 +73,13 @@ let () =
            Printf.printf "open ok %d\n" u)
       end
       else if starts_with "fail " line then begin
-        Hashtbl.reset failing;
+        Hashtbl.reset failing; Hashtbl.reset memo;
         let a = String.sub line 5 (String.length line - 5) in
         if a <> "-" then
           List.iter (fun x -> Hashtbl.replace failing (int_of_string x) ()) (String.split_on_char ',' a)
       end
       else begin
-        let out = Model.run_line pager (z_of_int !usize) (nat_of_int (Array.length !pages)) (bytes_of_string line) in
+        let out = Model.run_line_with pager openp (nat_of_int (Array.length !pages)) (bytes_of_string line) in
         List.iter (fun l -> print_endline (string_of_bytes l)) out
       end
     done
